@@ -49,6 +49,7 @@ fn new_palette(first: u32) {
 #[kani::unwind(8)]
 #[kani::stub(alloc::fmt::format, crate::vklib::empty_format)]
 #[kani::stub(std::collections::HashMap::insert, crate::vklib::hm_insert)]
+#[kani::stub(std::collections::HashMap::with_hasher, crate::vklib::hm_with_hasher)]
 #[kani::stub(crate::palette::ColorPalette::color, crate::vklib::side_color)]
 #[kani::stub(std::collections::HashMap::len, crate::vklib::hm_len)]
 fn c11_q_new_palette_from_0() {
@@ -58,6 +59,7 @@ fn c11_q_new_palette_from_0() {
 #[kani::unwind(8)]
 #[kani::stub(alloc::fmt::format, crate::vklib::empty_format)]
 #[kani::stub(std::collections::HashMap::insert, crate::vklib::hm_insert)]
+#[kani::stub(std::collections::HashMap::with_hasher, crate::vklib::hm_with_hasher)]
 #[kani::stub(crate::palette::ColorPalette::color, crate::vklib::side_color)]
 #[kani::stub(std::collections::HashMap::len, crate::vklib::hm_len)]
 fn c11_t_new_palette_from_254() {
@@ -69,6 +71,7 @@ fn c11_t_new_palette_from_254() {
 #[kani::unwind(4)]
 #[kani::stub(alloc::fmt::format, crate::vklib::empty_format)]
 #[kani::stub(std::collections::HashMap::insert, crate::vklib::hm_insert)]
+#[kani::stub(std::collections::HashMap::with_hasher, crate::vklib::hm_with_hasher)]
 #[kani::stub(crate::palette::ColorPalette::color, crate::vklib::side_color)]
 #[kani::stub(std::collections::HashMap::len, crate::vklib::hm_len)]
 fn c11_q_new_palette_bad_range() {
@@ -86,6 +89,7 @@ fn c11_q_new_palette_bad_range() {
 #[kani::proof]
 #[kani::stub(alloc::fmt::format, crate::vklib::empty_format)]
 #[kani::stub(std::collections::HashMap::insert, crate::vklib::hm_insert)]
+#[kani::stub(std::collections::HashMap::with_hasher, crate::vklib::hm_with_hasher)]
 #[kani::stub(crate::palette::ColorPalette::color, crate::vklib::side_color)]
 #[kani::stub(std::collections::HashMap::len, crate::vklib::hm_len)]
 fn c11_q_scale_6bit() {
@@ -161,6 +165,7 @@ fn legacy(kind11: bool, s0: u8, s1: u8) {
 #[kani::unwind(11)]
 #[kani::stub(alloc::fmt::format, crate::vklib::empty_format)]
 #[kani::stub(std::collections::HashMap::insert, crate::vklib::hm_insert)]
+#[kani::stub(std::collections::HashMap::with_hasher, crate::vklib::hm_with_hasher)]
 #[kani::stub(crate::palette::ColorPalette::color, crate::vklib::side_color)]
 #[kani::stub(std::collections::HashMap::len, crate::vklib::hm_len)]
 fn c11_q_legacy_04_skip_0_3() {
@@ -170,6 +175,7 @@ fn c11_q_legacy_04_skip_0_3() {
 #[kani::unwind(11)]
 #[kani::stub(alloc::fmt::format, crate::vklib::empty_format)]
 #[kani::stub(std::collections::HashMap::insert, crate::vklib::hm_insert)]
+#[kani::stub(std::collections::HashMap::with_hasher, crate::vklib::hm_with_hasher)]
 #[kani::stub(crate::palette::ColorPalette::color, crate::vklib::side_color)]
 #[kani::stub(std::collections::HashMap::len, crate::vklib::hm_len)]
 fn c11_q_legacy_04_skip_200_100() {
@@ -179,6 +185,7 @@ fn c11_q_legacy_04_skip_200_100() {
 #[kani::unwind(11)]
 #[kani::stub(alloc::fmt::format, crate::vklib::empty_format)]
 #[kani::stub(std::collections::HashMap::insert, crate::vklib::hm_insert)]
+#[kani::stub(std::collections::HashMap::with_hasher, crate::vklib::hm_with_hasher)]
 #[kani::stub(crate::palette::ColorPalette::color, crate::vklib::side_color)]
 #[kani::stub(std::collections::HashMap::len, crate::vklib::hm_len)]
 fn c11_t_legacy_04_overlapping() {
@@ -188,6 +195,7 @@ fn c11_t_legacy_04_overlapping() {
 #[kani::unwind(11)]
 #[kani::stub(alloc::fmt::format, crate::vklib::empty_format)]
 #[kani::stub(std::collections::HashMap::insert, crate::vklib::hm_insert)]
+#[kani::stub(std::collections::HashMap::with_hasher, crate::vklib::hm_with_hasher)]
 #[kani::stub(crate::palette::ColorPalette::color, crate::vklib::side_color)]
 #[kani::stub(std::collections::HashMap::len, crate::vklib::hm_len)]
 fn c11_t_legacy_11_skip_0_0() {
@@ -212,6 +220,7 @@ fn legacy_count_zero(kind11: bool, skip: u8) {
 #[kani::unwind(5)]
 #[kani::stub(alloc::fmt::format, crate::vklib::empty_format)]
 #[kani::stub(std::collections::HashMap::insert, crate::vklib::hm_insert)]
+#[kani::stub(std::collections::HashMap::with_hasher, crate::vklib::hm_with_hasher)]
 #[kani::stub(crate::palette::ColorPalette::color, crate::vklib::side_color)]
 #[kani::stub(std::collections::HashMap::len, crate::vklib::hm_len)]
 fn c11_q_legacy_04_count_zero_at_skip_2() {
@@ -221,6 +230,7 @@ fn c11_q_legacy_04_count_zero_at_skip_2() {
 #[kani::unwind(5)]
 #[kani::stub(alloc::fmt::format, crate::vklib::empty_format)]
 #[kani::stub(std::collections::HashMap::insert, crate::vklib::hm_insert)]
+#[kani::stub(std::collections::HashMap::with_hasher, crate::vklib::hm_with_hasher)]
 #[kani::stub(crate::palette::ColorPalette::color, crate::vklib::side_color)]
 #[kani::stub(std::collections::HashMap::len, crate::vklib::hm_len)]
 fn c11_q_legacy_11_count_zero_at_skip_2() {
@@ -230,6 +240,7 @@ fn c11_q_legacy_11_count_zero_at_skip_2() {
 #[kani::unwind(5)]
 #[kani::stub(alloc::fmt::format, crate::vklib::empty_format)]
 #[kani::stub(std::collections::HashMap::insert, crate::vklib::hm_insert)]
+#[kani::stub(std::collections::HashMap::with_hasher, crate::vklib::hm_with_hasher)]
 #[kani::stub(crate::palette::ColorPalette::color, crate::vklib::side_color)]
 #[kani::stub(std::collections::HashMap::len, crate::vklib::hm_len)]
 fn c11_t_legacy_04_count_zero_at_skip_0() {
@@ -242,6 +253,7 @@ fn c11_t_legacy_04_count_zero_at_skip_0() {
 #[kani::unwind(6)]
 #[kani::stub(alloc::fmt::format, crate::vklib::empty_format)]
 #[kani::stub(std::collections::HashMap::insert, crate::vklib::hm_insert)]
+#[kani::stub(std::collections::HashMap::with_hasher, crate::vklib::hm_with_hasher)]
 #[kani::stub(crate::palette::ColorPalette::color, crate::vklib::side_color)]
 #[kani::stub(std::collections::HashMap::len, crate::vklib::hm_len)]
 fn c11_q_indexed_pixels_need_palette_entries() {
